@@ -7,7 +7,9 @@ SLICE = "Responses.from_slice / Ownership.view_level (values of the exposed view
 RULE = ("fetch results (client fetch_messages and consumer poll) over plain / gzip / snappy / nested logs with many partitions are kept "
         "alive while the harness moves them (Box, Vec, another thread), issues further client calls, churns the allocator and finally "
         "drops them; after every step the topic names, keys and values are re-read and must equal the first reading and the log content. "
-        "non-trivial = a case with a compressed batch and at least one move plus churn between readings")
+        "a second family repeats one fetch nine times - the result released, or the reply refused by the decoder (flipped payload bit under "
+        "CRC validation, unknown codec) - and reads the bytes held by the process after every round: from the third round on they must "
+        "not add up. non-trivial = a case with a compressed batch and at least one move plus churn between readings, or a release family run to its end")
 ASSUMPTIONS = ["a dangling view is only observable once the freed memory has been reused: the allocator churn makes that likely, not certain",
                "address-level memory safety (no access to freed memory at all) is not decided by this check; see DESIGN.md section 7"]
 
@@ -80,6 +82,48 @@ def make_case(rng, nested=False, consumer=False, midplain=False, large=False, si
     return {"cluster": spec, "ops": ops, "meta": {"first": first, "nested": nested, "consumer": consumer, "midplain": midplain, "large": large, "two_topics": two_topics, "siblings": siblings}}
 
 
+ROUNDS = 9
+
+
+def make_release_case(rng, consumer, rejected):
+    """the same fetch ROUNDS times over, each result released (or each reply refused by the decoder: a flipped payload bit under CRC
+    validation, an unknown codec), the bytes held by the process read after every round: what a round leaves behind must not add up"""
+    nparts = rng.randint(1, 3)
+    logs = {}
+    for p in range(nparts):
+        msgs = [("plain", o, None if o % 2 else b"k", bytes(rng.getrandbits(8) for _ in range(rng.randint(6000, 9000)))) for o in range(3)]
+        kind = rng.choice(["plain", "gzip", "snappy"])
+        logs[(T1, p)] = msgs if kind == "plain" else [("wrap", kind, 2, msgs)]
+    spec = {"brokers": brokers(1), "topics": {T1: [1] * nparts, b"t2": [1]}, "logs": logs}
+    ops = boot_ops(spec)
+    if consumer:
+        ops += [T("consumer_build", [T("from_client"), [T("with_topic", [T1]), T("with_fallback_offset", [T("earliest")])]])]
+        call = T("poll")
+    else:
+        call = T("fetch_messages", [[fp(T1, p, 0) for p in range(nparts)]])
+    first = len(ops)
+    how = rng.choice(["flip", "codec"]) if rejected else None
+    for _ in range(ROUNDS):
+        if how == "flip":
+            # a bit of the first partition's message set, well inside its first value
+            ops.append({"op": call, "mutate": {"kind": "flip", "bit": 8 * rng.randint(120, 2000) + rng.randint(0, 7), "api": "fetch"}})
+        elif how == "codec":
+            body = {"topics": [{"topic": T1, "partitions": [{"partition": p, "error": 0, "highwatermark": 3,
+                                                             "message_set": (kproto.encode_message(0, None, b"lz4?", attr=3) if p == nparts - 1 else b"") +
+                                                             kproto.encode_entries(logs[(T1, p)])}
+                                                            for p in range(nparts)]}]}
+            ops.append({"op": call, "mutate": {"kind": "body", "body": body, "api": "fetch"}})
+        else:
+            ops.append(call)
+            if consumer:
+                # (the same messages are fetched again next time: nothing is marked consumed)
+                pass
+        ops += [T("drop_results"), T("live_bytes")]
+    size = sum(len(kproto.encode_entries(l)) for l in logs.values())
+    return {"cluster": spec, "ops": ops, "meta": {"first": first, "release": True, "rejected": how, "consumer": consumer, "reply_bytes": size,
+                                                  "nested": False, "large": False}}
+
+
 def gen(rng, tier):
     n = 150 if tier == "quick" else 2500
     cases = []
@@ -89,6 +133,8 @@ def gen(rng, tier):
         cases.append(make_case(rng, nested=(i % 5 == 0), consumer=(i % 2 == 0), large=True))
     for i in range(16 if tier == "quick" else 300):
         cases.append(make_case(rng, consumer=(i % 2 == 0), siblings=True))
+    for i in range(12 if tier == "quick" else 120):
+        cases.append(make_release_case(rng, consumer=(i % 2 == 0), rejected=(i % 3 != 0)))
     return cases
 
 
@@ -107,8 +153,35 @@ def _messages(v, consumer):
     return out
 
 
+def release_oracle(case, recs):
+    m = case["meta"]
+    if recs[-1]["impl"].name in ("panic", "hang", "abort"):
+        return ["C18: crashed: %s" % dumps(recs[-1]["impl"])[:100]]
+    if len(recs) < len(case["ops"]):
+        return ["C18: case did not run to the end"]
+    calls = [r for r in recs[m["first"]:] if r["op"].name in ("poll", "fetch_messages")]
+    want = "err" if m["rejected"] else "ok"
+    fails = []
+    for r in calls:
+        res = r["impl"]
+        if res.name != want:
+            fails.append("C18: release rounds (%s): a call returned %s, expected %s" % (m["rejected"] or "accepted", dumps(res)[:80], want))
+            break
+    live = [r["impl"].args[0] for r in recs if r["op"].name == "live_bytes" and r["impl"].name == "ok"]
+    if len(live) != ROUNDS:
+        return fails + ["C18: live_bytes readings missing"]
+    # the first rounds may still grow pools and tables; from the third on a round must leave nothing behind that adds up
+    growth = live[-1] - live[2]
+    if growth > (ROUNDS - 3) * m["reply_bytes"] // 4:
+        fails.append("C18: memory not released: after each of %d further %s rounds (reply of about %d bytes) the process holds more - %d bytes in all: %s"
+                     % (ROUNDS - 3, "refused" if m["rejected"] else "released", m["reply_bytes"], growth, live))
+    return fails
+
+
 def oracle(case, recs, cl):
     m = case["meta"]
+    if m.get("release"):
+        return release_oracle(case, recs)
     cls = "C18-nested-dangling:" if m["nested"] else "C18:"   # (class of a finding that is now fixed: any failure is a violation)
     fails = []
     if recs[-1]["impl"].name in ("panic", "hang", "abort"):
@@ -139,12 +212,16 @@ def oracle(case, recs, cl):
 
 
 def nontrivial(case, recs):
-    names = [o.name for o in case["ops"]]
+    if case["meta"].get("release"):
+        return len(recs) == len(case["ops"])
+    names = [(o["op"] if isinstance(o, dict) else o).name for o in case["ops"]]
     comp = any(e[0] == "wrap" for log in case["cluster"]["logs"].values() for e in log)
     return comp and "move_results" in names and "churn" in names and len(recs) == len(case["ops"])
 
 
 def stats(case, recs):
     m = case["meta"]
+    if m.get("release"):
+        return {"release_rounds:%s" % (m["rejected"] or "accepted"): 1, "via:%s" % ("poll" if m["consumer"] else "fetch_messages"): 1}
     return {"nested:%s" % m["nested"]: 1, "reply_over_64KiB:%s" % bool(m.get("large")): 1, "assigned_topics:%d" % (2 if m.get("two_topics") else 1): 1, "via:%s" % ("poll" if m["consumer"] else "fetch_messages"): 1,
             "moves": sum(1 for o in case["ops"] if o.name == "move_results")}
